@@ -103,6 +103,22 @@ type Env struct {
 	Holds     int // split steps used on this path
 }
 
+// heldBlocks tells whether a step of (ctrl, id) has to wait for the held call of (heldCtrl, heldID). The controller
+// runtime (onos-lib-go) runs the requests of one partition one after the other and different partitions concurrently:
+// every controller has a single partition, except the v2 proposal controller, which is partitioned by target – the
+// proposals of different targets are reconciled concurrently.
+func heldBlocks(w *World, heldCtrl, heldID, ctrl, id string) bool {
+	if heldCtrl == "" || ctrl != heldCtrl {
+		return false
+	}
+	if ctrl == cProp && !w.cfg.V3 {
+		ht, _ := proposalIndex(heldID)
+		t, _ := proposalIndex(id)
+		return ht == t
+	}
+	return true
+}
+
 // heldParts decodes Env.Held.
 func heldParts(h string) (ctrl, id string, k int) {
 	p := strings.Split(h, "|")
@@ -483,10 +499,10 @@ func (x *Explorer) Run() {
 			}
 			// 0. split steps: while a call is held, its controller runs nothing else (one partition per controller),
 			// every other transition counts against HoldDepth, and the held call may continue at any time
-			heldCtrl := ""
+			heldCtrl, heldID := "", ""
 			if s.env.Held != "" {
 				hc, hid, hk := heldParts(s.env.Held)
-				heldCtrl = hc
+				heldCtrl, heldID = hc, hid
 				w.Restore(s.snap)
 				res, reached := w.Release(hc, hid, hk, s.heldSnap, s.snap)
 				if !reached {
@@ -524,7 +540,7 @@ func (x *Explorer) Run() {
 			}
 			var effectful []Trans
 			for _, tr := range stepChoices {
-				if tr.Ctrl == heldCtrl {
+				if heldBlocks(w, heldCtrl, heldID, tr.Ctrl, tr.ID) {
 					continue
 				}
 				w.Restore(s.snap)
